@@ -28,8 +28,8 @@ import pyleg  # noqa: E402
 import runner  # noqa: E402
 from pybbi import encode as E  # noqa: E402
 
-QUICK_FILES = 400
-THOROUGH_FILES = 6000
+QUICK_FILES = 1500
+THOROUGH_FILES = 20000
 BATCH = 100  # files per query file / readq process
 READQ_TIMEOUT_S = 120
 NSHARDS = 16
